@@ -1,7 +1,7 @@
 (* Lemmas about Model/OpcodeSelect.v (backend/src/opcode_select.rs). *)
 From Aelys Require Import Base.Tactics Extracted.ValueConsts Extracted.Opcodes Extracted.OpcodeSelectTables
   Extracted.DispatchArms Model.Value
-  Proofs.ValueProofs Model.VmArith Proofs.VmArithProofs Model.OpcodeSelect.
+  Proofs.ValueProofs Model.VmArith Proofs.VmArithProofs Proofs.CodecProofs Model.OpcodeSelect.
 Local Open Scope N_scope.
 
 Definition is_bitwise (op : binop) : bool :=
@@ -169,36 +169,44 @@ Proof.
   rewrite Hs. f_equal. rewrite <- Hg. apply variant_sound; [rewrite Hq; exact He | exact Ha | exact Hb].
 Qed.
 
-(* == and != : same statement when no operand is a float and int operands are the words
-   Value::int builds (the remaining cases compare IEEE == with Value ==, see eq_nan_differs) *)
+(* == and != : the same statement when both operands are floats or neither is, int operands are
+   the words Value::int builds, and the operands are not one and the same NaN pattern (there the
+   generic Value == says true by its raw-bits shortcut, IEEE == says false).  Still excluded: an
+   int compared with a float (needs facts about `i as f64` that are not proved). *)
 Definition canon_int (w : N) : Prop := is_int w = true -> exists x, in48 x /\ w = v_int x.
 
 Lemma variant_eq_sound (hv : heapview) (s : binsem) (a b : N) :
   a < W64 -> b < W64 ->
-  is_float a = false -> is_float b = false -> canon_int a -> canon_int b ->
+  is_float a = is_float b -> canon_int a -> canon_int b ->
+  (a <> b \/ is_nan_bits a = false) ->
   is_eq_sem s = true ->
   run_binsem hv s a b = run_binsem hv (generic_of s) a b.
 Proof.
-  intros Ha Hb Fa Fb Ca Cb He.
+  intros Ha Hb Fab Ca Cb Hn He.
   assert (G : forall o, gd_cmp_iig hv o a b = g_cmp hv o a b).
-  { intro o. destruct (is_int a) eqn:Ia; destruct (is_int b) eqn:Ib.
-    - destruct (Ca Ia) as (x & Hx & ->). destruct (Cb Ib) as (y & Hy & ->).
-      apply guarded_eq_ints; assumption.
-    - apply (guarded_eq_nonnum hv o a b Ha Hb). unfold is_num. rewrite Ib, Fb, andb_false_r. reflexivity.
-    - apply (guarded_eq_nonnum hv o a b Ha Hb). unfold is_num. rewrite Ia, Fa. reflexivity.
-    - apply (guarded_eq_nonnum hv o a b Ha Hb). unfold is_num. rewrite Ia, Fa. reflexivity. }
+  { intro o. destruct (is_float b) eqn:Fb.
+    - apply (guarded_eq_floats hv o a b Ha Hb Fab Fb Hn).
+    - destruct (is_int a) eqn:Ia; destruct (is_int b) eqn:Ib.
+      + destruct (Ca Ia) as (x & Hx & ->). destruct (Cb Ib) as (y & Hy & ->).
+        apply guarded_eq_ints; assumption.
+      + apply (guarded_eq_nonnum hv o a b Ha Hb). unfold is_num. rewrite Ib, Fb, andb_false_r. reflexivity.
+      + apply (guarded_eq_nonnum hv o a b Ha Hb). unfold is_num. rewrite Ia, Fab. reflexivity.
+      + apply (guarded_eq_nonnum hv o a b Ha Hb). unfold is_num. rewrite Ia, Fab. reflexivity. }
   assert (T : forall o, t_cmp_ff hv o a b = g_cmp hv o a b).
-  { intro o. apply typed_eq_ff_nonfloat. rewrite Fa. reflexivity. }
+  { intro o. destruct (is_float b) eqn:Fb.
+    - apply typed_eq_ff_floats; assumption.
+    - apply typed_eq_ff_nonfloat. rewrite Fab. reflexivity. }
   destruct s as [f o|f o|f o]; try discriminate.
   destruct f; cbn [run_binsem generic_of]; try reflexivity; try apply G; try apply T.
 Qed.
 
 Lemma selected_eq_sound (hv : heapview) (op : binop) (l r : rtype) (a b : N) :
   is_eqop op = true -> a < W64 -> b < W64 ->
-  is_float a = false -> is_float b = false -> canon_int a -> canon_int b ->
+  is_float a = is_float b -> canon_int a -> canon_int b ->
+  (a <> b \/ is_nan_bits a = false) ->
   run_selected hv op l r a b = Some (run_binsem hv (generic_sem op) a b).
 Proof.
-  intros He Ha Hb Fa Fb Ca Cb. unfold run_selected, vm_binop. rewrite select_flags.
+  intros He Ha Hb Fab Ca Cb Hn. unfold run_selected, vm_binop. rewrite select_flags.
   destruct (select_by_flags_sem op (is_integer (unwrap_uncertain l)) (is_float_ty (unwrap_uncertain l))
               (is_integer (unwrap_uncertain r)) (is_float_ty (unwrap_uncertain r))
               (needs_guard l || needs_guard r)) as (s & Hs & Hg & Hq).
